@@ -838,6 +838,84 @@ class Tr:
                         continue
                     raise TranslationError(f"`{x}` is mutated and aliased")
 
+    def check_augassign(self, s: ast.AugAssign):
+        """phase 6 (orch): `x op= e` is IN PLACE in Python when `x` holds a mutable object (a list, a numpy array, …) - every
+        alias sees the change -, but `x = x op e` in PyLite (value semantics).  It is accepted only where the two cannot be
+        told apart: `x` is a local (not a parameter, not a loop / comprehension / `with` / `except` target) whose every
+        binding is an int expression (then `op=` rebinds) or a fresh list under the conditions of `append`; `x[i] op= e`
+        only for such a fresh local list whose items are int expressions.  Anything else: TranslationError."""
+        def int_expr(e) -> bool:
+            if isinstance(e, ast.Constant):
+                return type(e.value) in (int, bool)
+            if isinstance(e, ast.UnaryOp) and isinstance(e.op, ast.USub):
+                return int_expr(e.operand)
+            if isinstance(e, ast.BinOp) and type(e.op) in _BINOP:
+                return int_expr(e.left) and int_expr(e.right)
+            return isinstance(e, ast.Call) and isinstance(e.func, ast.Name) and e.func.id in ("len", "int") \
+                and e.func.id not in self.bound
+
+        def bindings(x):
+            """the values `x` is bound to by plain assignments; None if it is (also) bound in another way"""
+            vals = []
+            for n in ast.walk(self.fn):
+                if isinstance(n, (ast.Assign, ast.AnnAssign)) and n.value is not None:
+                    for t in (n.targets if isinstance(n, ast.Assign) else [n.target]):
+                        if isinstance(t, ast.Name) and t.id == x:
+                            vals.append(n.value)
+                        elif isinstance(t, (ast.Tuple, ast.List)) and any(isinstance(u, ast.Name) and u.id == x
+                                                                          for u in ast.walk(t)):
+                            return None
+                elif isinstance(n, (ast.For, ast.comprehension)) and any(
+                        isinstance(u, ast.Name) and u.id == x for u in ast.walk(n.target)):
+                    return None
+                elif isinstance(n, ast.ExceptHandler) and n.name == x:
+                    return None
+                elif isinstance(n, ast.withitem) and n.optional_vars is not None and any(
+                        isinstance(u, ast.Name) and u.id == x for u in ast.walk(n.optional_vars)):
+                    return None
+                elif isinstance(n, ast.NamedExpr) and n.target.id == x:
+                    return None
+            return vals
+
+        tg, what = s.target, f"augmented assignment `{ast.unparse(s.target)} {type(s.op).__name__}= …`"
+        if isinstance(tg, ast.Name):
+            x = tg.id
+            if x in self.params or x not in self.bound:
+                raise TranslationError(f"{what}: `{x}` is not a local variable (in place on a shared object?)")
+            vals = bindings(x)
+            if vals is None or not vals:
+                raise TranslationError(f"{what}: `{x}` is bound by a loop / unpacking / with (in place on a shared object?)")
+            if all(int_expr(v) for v in vals) and int_expr(s.value):
+                return
+            if all(isinstance(v, (ast.List, ast.ListComp)) for v in vals) and isinstance(s.op, (ast.Add, ast.Mult)):
+                self.check_local_list(x)        # `xs += ys` is `extend` on a fresh, unaliased list
+                if x in self.loop_lists:
+                    raise TranslationError(f"{what}: `{x}` is iterated over")
+                return
+            raise TranslationError(f"{what}: `{x}` may hold a shared mutable object (PyLite has value semantics)")
+        if isinstance(tg, ast.Subscript) and isinstance(tg.value, ast.Name):
+            x = tg.value.id
+            vals = bindings(x) if x not in self.params and x in self.bound else None
+            if vals and all(isinstance(v, ast.List) and all(int_expr(i) for i in v.elts) or
+                            isinstance(v, ast.ListComp) and int_expr(v.elt) or
+                            isinstance(v, ast.BinOp) and isinstance(v.op, ast.Mult) and isinstance(v.left, ast.List)
+                            and all(int_expr(i) for i in v.left.elts) for v in vals):
+                ok_lists = all(isinstance(v, (ast.List, ast.ListComp)) for v in vals)
+                if ok_lists:
+                    self.check_local_list(x)
+                    for n in ast.walk(self.fn):      # items stored later must be ints as well
+                        if isinstance(n, ast.Assign) and any(isinstance(t, ast.Subscript) and isinstance(t.value, ast.Name)
+                                                             and t.value.id == x for t in n.targets) and not int_expr(n.value):
+                            break
+                        if isinstance(n, ast.Call) and isinstance(n.func, ast.Attribute) and isinstance(n.func.value, ast.Name) \
+                                and n.func.value.id == x and n.func.attr in ("append", "insert", "extend") \
+                                and not all(int_expr(a) for a in n.args):
+                            break
+                    else:
+                        return
+            raise TranslationError(f"{what}: an item of `{x}` may be a shared mutable object (PyLite has value semantics)")
+        raise TranslationError(f"{what}: in place on an attribute / a computed object")
+
     def stored_after_last_mutation(self, n, x: str) -> bool:
         """`n` (`<target> = x`) is a statement at the top level of the function and no statement after it mentions
         `x.append / remove / extend` or assigns an item of `x`: the shared list is never changed once it is shared"""
@@ -947,6 +1025,8 @@ class Tr:
         if isinstance(s, ast.AugAssign):
             if type(s.op) not in _BINOP:
                 raise TranslationError(f"unsupported augmented assignment {type(s.op).__name__}")
+            if self.orch:
+                self.check_augassign(s)
             cur = self.expr(s.target)
             return [self.assign(s.target, ("bin", _BINOP[type(s.op)], cur, self.expr(s.value)))]
         if isinstance(s, ast.If):
